@@ -1,40 +1,68 @@
 TECHNIQUE = ('bounded symbolic execution of LLVM IR lowered to C: CBMC/SAT (cadical), sequentialised step machine '
              '(engine cbmc-seq: symbolic scheduler over all atomic operations / futex calls), ghost dispatch/invocation '
-             'counters + allocation ledger')
+             'counters + small-buffer allocation ledger (size class of every block recorded)')
 ASSUMPTIONS = [
-    'small-buffer pool contract stub (harness/C18/sba_stub.h), model schedulables with typed slots, hand-resolved run closure and exact '
-    'virtual dispatch as in harness/C18/spec.py',
+    'small-buffer pool contract stub (harness/C18/sba_stub.h), model schedulables that only take the OnceFunction, hand-resolved run '
+    'closure (`[this]{ run(); }` of makeOnceFunction -> direct call of the real FutureImplBase::run()) and exact virtual dispatch '
+    '(spec key devirt) as in harness/C18/spec.py',
     'nobody waits on a continuation future while its antecedent is running on another thread (the closure would block inside a '
     'virtual call, which the engine cannot suspend)',
     'sequential consistency for all atomics',
 ]
-OUTSIDE = ('STATUS: no instance of this spec completed within its timeout in the authoring session (see NOTES.md); '
-           'when_all / when_any / task-set variants are not encoded (claim reduced to the then() kernel); more than two '
-           'continuations; continuation chains; waiters that run a continuation inline; weak-memory reorderings')
+OUTSIDE = ('when_all / when_any and the TaskSet / ConcurrentTaskSet then() overloads are NOT encoded (claim reduced to the then() kernel '
+           'over a generic schedulable); more than two continuations on one antecedent; chains of continuations (then().then()); waiters '
+           'that run a continuation inline while its antecedent is running elsewhere; schedules needing more execution segments per '
+           'thread than the stated scheduler rounds; CAS retry loops iterating more than once per segment; weak-memory reorderings')
 
-def I(name, defs, steps, nthreads, bounds, **kw):
-    d = {'name': name, 'src': 'then.cpp', 'engine': 'cbmc-seq', 'steps': steps, 'spin_loops': True, 'defs': defs,
-         'unwind': 2, 'unwindset': {}, 'nthreads': nthreads, 'timeout': 1500, 'leak_check': True,
-         'shims': ['moodycamel'], 'seq_unroll': True, 'devirt': True, 'tiers': ['quick', 'thorough'], 'bounds': bounds}
+RED = ['--no-standard-checks', '--pointer-check', '--div-by-zero-check']
+
+CONC = ('registrar thread(s): then() on an own copy of a Future<int32_t> antecedent (continuation result int64_t; async / deferred '
+        'policy bits symbolic), then drops the copy || completer thread: real FutureImplBase::run() of the antecedent || main: drops '
+        'its reference before or after the join (symbolic); %d scheduler rounds (each thread <= %d execution segments, preemption '
+        'before every atomic operation / futex call); all three orderings are witnessed (continuation dispatched by the completing '
+        'thread / by the registrar\'s re-check / by then() at once); %s')
+TAILS = {0: 'after the join only the dispatch counters are checked',
+         1: 'after the join main runs the dispatched continuation (it reads its antecedent through is_ready()+result), drops every '
+            'reference; ledger must be empty',
+         2: 'after the join main runs the dispatched continuation, get()s its future, drops every reference; ledger must be empty'}
+
+
+def I(name, regs, steps, tail, cont_get, **kw):
+    d = {'name': name, 'src': 'then.cpp', 'engine': 'cbmc-seq', 'steps': steps, 'spin_loops': True,
+         'defs': {'VF_REGISTRARS': regs, 'VF_CHECK_POOL': 0, 'VF_TAIL': tail, 'VF_CONT_GET': cont_get},
+         'unwind': regs, 'nthreads': regs + 2, 'timeout': 1500, 'leak_check': tail >= 1, 'must_reach': 'all',
+         'shims': ['moodycamel'], 'seq_unroll': True, 'devirt': True, 'checks': RED, 'tiers': ['quick', 'thorough'],
+         'bounds': CONC % (steps, steps, TAILS[tail])}
     d.update(kw)
     return d
+
 
 SEQB = ('Future<int32_t> antecedent over a queuing model schedulable; %d then() call(s) (continuation result int64_t, launch policies '
         'symbolic) and the antecedent\'s run() execute one after the other in a symbolic order (k then() calls before the completion, '
         'the rest after: task-granularity interleaving); main drops its reference early or late; afterwards main runs the dispatched '
         'continuation closures, get()s their futures and drops everything')
+
+
 def S(name, regs, pool, tiers):
-    return {'name': name, 'src': 'then.cpp', 'engine': 'cbmc', 'defs': {'VF_REGISTRARS': regs, 'VF_SEQ_ORDER': 1, 'VF_CHECK_POOL': pool},
-            'unwind': 8, 'timeout': 1500, 'leak_check': True, 'shims': ['moodycamel'], 'devirt': True, 'tiers': tiers,
-            'spin_loops': True, 'bounds': SEQB % regs + ('; small-buffer blocks must return to the pool they came from' if pool else '')}
+    # engine cbmc-seq with a single thread and no preemption = sequential execution of the fully inlined harness (typed
+    # allocation, constant-trip-count loops unrolled); the plain 'cbmc' engine keeps allocSmallOrLarge() out of line and sees
+    # the shared states as untyped byte arrays (conversion did not finish in 10 minutes)
+    return {'name': name, 'src': 'then.cpp', 'engine': 'cbmc-seq', 'steps': 1, 'nthreads': 1, 'preempts': 0, 'seq_unroll': True,
+            'defs': {'VF_REGISTRARS': regs, 'VF_SEQ_ORDER': 1, 'VF_CHECK_POOL': pool, 'VF_TAIL': 2, 'VF_CONT_GET': 1},
+            'unwind': regs, 'timeout': 1500, 'leak_check': True, 'shims': ['moodycamel'], 'devirt': True, 'tiers': tiers,
+            'spin_loops': True,
+            'bounds': SEQB % regs + ('; every small-buffer block must be released to the size class it was allocated from' if pool else '')}
+
 
 INSTANCES = [
-    S('then2_order', 2, 0, ['quick', 'thorough']),
+    # concurrent kernel: completer || registrar at atomic-operation granularity
+    I('then1', 1, 2, 0, 0, thorough={'steps': 3}),
+    I('then1_tail', 1, 2, 1, 0, tiers=['experimental']),
+    # what happens after the dispatch, and two continuations on one antecedent: task-granularity orders
     S('then1_order', 1, 0, ['quick', 'thorough']),
-    # allocator contract on the then() path: fails on the unchanged tree (future_impl.h:240, see NOTES.md)
-    S('then1_order_pool', 1, 1, ['finding']),
-    # concurrent kernel (completer || registrar at atomic-operation granularity): not decided within 25 minutes here
-    I('then1', {'VF_REGISTRARS': 1, 'VF_CHECK_POOL': 0}, 2, 3,
-      'completer thread (antecedent run()) || registrar thread (then()) || main; 2 scheduler rounds', tiers=['experimental'],
-      checks=['--no-standard-checks', '--pointer-check', '--div-by-zero-check']),
+    S('then2_order', 2, 0, ['quick', 'thorough']),
+    # allocator contract on the then() path (property C11: memory safe / allocator contract): the then-chain link is
+    # allocated from the 32-byte class and released to the 8-byte class (future_impl.h:240, nextPow2(sizeof(this))).
+    S('then1_order_pool', 1, 1, ['quick', 'thorough']),
+    I('then2', 2, 2, 0, 0, tiers=['thorough']),
 ]
